@@ -196,6 +196,18 @@ static void prop_solve(Tape &t, Ctx &c) {
     int cec = static_cast<int>(t.u(0, 2));
     ptrdiff_t ce = cec == 0 ? 12 : cec == 1 ? 4 : 3000;
     double tol = t.b() ? 1e-8 : 1e-6;
+    // The system actually solved may differ from the one the solver was set up for (make_solver/make_block_solver: "the system matrix may
+    // differ from the matrix used during initialization"): A1 has the pattern of A, and either A1 = 2A or the diagonal grown by 10..50 % per
+    // row and the off-diagonals shrunk by a common factor in [0.6,1] (still symmetric, more diagonally dominant => SPD, spectrally within
+    // a factor ~2.5 of A, so the preconditioner built for A stays adequate).  The reported residual must be truthful for the SCALAR A1.
+    Csr<double> A1 = A;
+    int a1mode = static_cast<int>(t.u(0, 1));
+    if (a1mode == 0) { for (auto &v : A1.val) v *= 2.0; }
+    else {
+        double g = t.uni(0.6, 1.0);
+        for (ptrdiff_t i = 0; i < A1.n; ++i) { double di = 1.0 + t.uni(0.1, 0.5); for (ptrdiff_t j = A1.ptr[i]; j < A1.ptr[i + 1]; ++j) A1.val[j] *= (A1.col[j] == i ? di : g); }
+    }
+    c.label(a1mode == 0 ? "A1=2A" : "A1=perturbed");
     const size_t maxiter = 1000; // CG with the (not exactly symmetric) block-valued cycle can need more than 200 steps on n=250 (seen once in 1e5 cases)
     c.desc << "block solve b=" << B << " kind=" << bc.kind << " " << bc.family << " nb=" << bc.nb << " " << describe(A) << " incomplete=" << bc.incomplete << "/" << bc.blocks
            << " contrast=" << bc.contrast << " rhs=" << fk << " coarse_enough=" << ce << " tol=" << tol << " A=" << dump_small(A, 8);
@@ -207,6 +219,8 @@ static void prop_solve(Tape &t, Ctx &c) {
     size_t n = static_cast<size_t>(A.n), nb = static_cast<size_t>(bc.nb);
     auto As = std::tie(n, A.ptr, A.col, A.val);
     auto Ab = amgcl::adapter::block_matrix<blk>(As);
+    auto As1 = std::tie(n, A1.ptr, A1.col, A1.val);
+    auto Ab1 = amgcl::adapter::block_matrix<blk>(As1);
     size_t iters; double resid;
     size_t levels_seen = 0;
     // Convergence to the tolerance is demanded on the model kinds (M-matrix like, kappa small); for kind 3 (entries of both
@@ -230,6 +244,12 @@ static void prop_solve(Tape &t, Ctx &c) {
         auto F = ab::reinterpret_as_rhs<blk>(f); auto X = ab::reinterpret_as_rhs<blk>(x);
         std::tie(iters, resid) = solve(Ab, F, X);
         require_truthful(c, "block_matrix+amg<block>+cg", A, f, x, iters, resid, tol, maxiter, conv);
+        {   // solver set up for A, asked to solve A1
+            std::vector<double> x1(n, 0.0);
+            auto X1 = ab::reinterpret_as_rhs<blk>(x1);
+            std::tie(iters, resid) = solve(Ab1, F, X1);
+            require_truthful(c, "block_matrix+amg<block>+cg, other matrix", A1, f, x1, iters, resid, tol, maxiter, conv);
+        }
         // the level-0 matrix of the hierarchy is the same operator
         require_block_entries(solve.system_matrix(), ScalarView(A), "amg<block>::system_matrix", true);
         std::ostringstream os; os << solve.precond(); std::string s = os.str();
@@ -258,6 +278,10 @@ static void prop_solve(Tape &t, Ctx &c) {
         std::vector<double> x2(n, 0.0);
         std::tie(iters, resid) = solve(Ab, f, x2);
         require_truthful(c, "make_block_solver(A,f,x)", A, f, x2, iters, resid, tol, maxiter, conv);
+        // three-argument form with a matrix that differs from the setup matrix: block adapter and plain scalar tuple
+        std::vector<double> x3(n, 0.0);
+        std::tie(iters, resid) = solve(Ab1, f, x3);
+        require_truthful(c, "make_block_solver(A1,f,x)", A1, f, x3, iters, resid, tol, maxiter, conv);
     });
     guarded("as_scalar", [&]() {   // 4. coarsening::as_scalar (tutorial/5.Nullspace/nullspace_block.cpp): scalar coarsening of a block matrix
         typedef amgcl::make_solver<AmgAsScalar, amgcl::solver::bicgstab<BB>> Solver;
@@ -281,6 +305,9 @@ static void prop_solve(Tape &t, Ctx &c) {
         std::vector<double> x2(n, 0.0);
         std::tie(iters, resid) = solve(f, x2);  // iterates on the block copy held by the preconditioner
         require_truthful(c, "builtin_hybrid+spai0+cg(f,x)", A, f, x2, iters, resid, tol, maxiter, conv);
+        std::vector<double> x3(n, 0.0);
+        std::tie(iters, resid) = solve(As1, f, x3);
+        require_truthful(c, "builtin_hybrid+spai0+cg, other matrix", A1, f, x3, iters, resid, tol, maxiter, conv);
     });
     guarded("as_block", [&]() {   // 6. relaxation::as_block: block ILU(0) as smoother inside the hybrid hierarchy
         typedef amgcl::make_solver<AmgAsBlock, amgcl::solver::bicgstab<HB>> Solver;
